@@ -431,6 +431,32 @@ def judge_transition(col, L, prog, T, history, op, case):
                           f"{after.get((n, s))!r}, reference {want[(n, s)]!r} (before the operation: "
                           f"{before.get((n, s))!r}); all mismatches: "
                           f"{[(k, after.get(k), want[k]) for k in wrong][:6]}", case)
+    if T.unsupported and T.root == "kitty":
+        # ... and whether KittyImage.clear() does anything there: delete sequences are written iff the effective
+        # forced support of the class it is called on is enabled (stdout, or the tty for now=True)
+        for c in m.concrete:
+            for kw in ({}, dict(now=True), dict(cursor=True), dict(z_index=5), dict(cursor=True, now=True)):
+                out = world.VStdout(None, isatty=False)
+                tty = world.W.tty
+                n0 = len(tty.out)
+                world.install(tty, out)
+                try:
+                    T.nodes[c].clear(**kw)
+                finally:
+                    sys.stdout = L.orig["stdout"]
+                    L.kitty._stdout_write = L.orig["kitty_w"]
+                    L.iterm2._stdout_write = L.orig["iterm2_w"]
+                    world.W.stdout = None
+                sink = bytes(tty.out[n0:]).decode("latin-1") if kw.get("now") else out.getvalue()
+                wrote = "_Ga=d" in sink
+                col.count()
+                col.inc("clear_observations")
+                if wrote != m.eff("fs", c):
+                    ok = False
+                    col.violation(dict(clause="forced-support-clear", now=bool(kw.get("now")), **base),
+                                  f"{prog['root']}/{prog['shape']}: after {history}: {c}.clear({kw}) on an unsupporting "
+                                  f"terminal {'wrote' if wrote else 'did not write'} delete sequences, effective "
+                                  f"forced support of {c} is {m.eff('fs', c)}", case)
     if T.unsupported:
         # forced support decides whether the style can be instantiated on a terminal without support
         for c in (m.concrete if FAMILY[T.root] == "graphics" else ()):
